@@ -2,15 +2,21 @@ import SfVerif.Spec.Read
 /-! Read-call histories: the model's run and the specification's run. -/
 namespace SfVerif
 
-/-- a read call on a previously returned handle (or the root fetch) -/
+/-- a read call: the root fetch, or a call whose `scope` argument is a previously returned handle
+    (`.node h`) or any other value the guest holds — null, a boolean, a number, an error value, a
+    forged bit pattern (`.lit d`, see `Scope`) -/
 inductive ROp where
   | root
-  | atIndex (h : Handle) (i : Nat)
-  | keyAt (h : Handle) (i : Nat)
-  | prop (h : Handle) (q : Bytes)
-  | len (h : Handle)
+  | atIndex (s : Scope) (i : Nat)
+  | keyAt (s : Scope) (i : Nat)
+  | prop (s : Scope) (q : Bytes)
+  | len (s : Scope)
   | strOff (h : Handle)
   deriving Repr
+
+def Scope.handle? : Scope → Option Handle
+  | .node h => some h
+  | .lit _ => none
 
 inductive RAns where
   | val (v : RVal)
@@ -20,10 +26,10 @@ inductive RAns where
 
 def ROp.handle? : ROp → Option Handle
   | .root => none
-  | .atIndex h _ => some h
-  | .keyAt h _ => some h
-  | .prop h _ => some h
-  | .len h => some h
+  | .atIndex s _ => s.handle?
+  | .keyAt s _ => s.handle?
+  | .prop s _ => s.handle?
+  | .len s => s.handle?
   | .strOff h => some h
 
 /-- number of root allocations after the call -/
@@ -42,10 +48,10 @@ def RAns.handles : RAns → List Handle
 /-- one read call on the model -/
 def Ctx.rstep (c : Ctx) : ROp → Ctx × RAns
   | .root => let r := c.inputGet; (r.1, .val r.2)
-  | .atIndex h i => let r := c.getAtIndex (.node h) i; (r.1, .val r.2)
-  | .keyAt h i => let r := c.getKeyAtIndex (.node h) i; (r.1, .val r.2)
-  | .prop h q => let r := c.getObjProp (.node h) q; (r.1, .val r.2)
-  | .len h => (c, .len (c.getValLen (.node h)))
+  | .atIndex s i => let r := c.getAtIndex s i; (r.1, .val r.2)
+  | .keyAt s i => let r := c.getKeyAtIndex s i; (r.1, .val r.2)
+  | .prop s q => let r := c.getObjProp s q; (r.1, .val r.2)
+  | .len s => (c, .len (c.getValLen s))
   | .strOff h => (c, .off (c.strOffset h))
 
 def Ctx.rrun (c : Ctx) : List ROp → List RAns × Ctx
@@ -54,14 +60,29 @@ def Ctx.rrun (c : Ctx) : List ROp → List RAns × Ctx
 
 namespace Spec
 
+open SfVerif.Gen in
+/-- a scope that is not a handle is answered by its kind alone: a pointer kind can only carry a
+    null pointer (`ReadError`), any other decodable value is the wrong kind, an undecodable bit
+    pattern gets the entry point's decode error -/
+def litAnswer (d : NanBox.Decoded) (acceptArr : Bool) (wrongKind undecodable : Nat) : RVal :=
+  match d with
+  | .ok (.object _ _) => .err ErrorCode_ReadError
+  | .ok (.array _ _) => if acceptArr then .err ErrorCode_ReadError else .err wrongKind
+  | .ok _ => .err wrongKind
+  | _ => .err undecodable
+
 /-- the specified answer: a function of the document, the call, and — only to *name* a fresh root
     handle — how many root fetches came before -/
 def answer (b : Bytes) (nroots : Nat) : ROp → RAns
   | .root => .val (valueAt b nroots [])
-  | .atIndex h i => .val (getAtIndex b h i)
-  | .keyAt h i => .val (getKeyAtIndex b h i)
-  | .prop h q => .val (getObjProp b h q)
-  | .len h => .len (getValLen b h)
+  | .atIndex (.node h) i => .val (getAtIndex b h i)
+  | .atIndex (.lit d) _ => .val (litAnswer d true Gen.ErrorCode_NotIndexable Gen.ErrorCode_ReadError)
+  | .keyAt (.node h) i => .val (getKeyAtIndex b h i)
+  | .keyAt (.lit d) _ => .val (litAnswer d false Gen.ErrorCode_NotAnObject Gen.ErrorCode_ReadError)
+  | .prop (.node h) q => .val (getObjProp b h q)
+  | .prop (.lit d) _ => .val (litAnswer d false Gen.ErrorCode_NotAnObject Gen.ErrorCode_DecodeError)
+  | .len (.node h) => .len (getValLen b h)
+  | .len (.lit _) => .len none
   | .strOff h => .off (strOffset b h)
 
 def run (b : Bytes) (nroots : Nat) : List ROp → List RAns
